@@ -193,6 +193,7 @@ def _worker(job):
             from gosym.glue import Glue
             gl = Glue(ses)
             ex.hooks[FP + '.vAssertScanValue'] = gl.h_assert_scan
+            ex.hooks[FP + '.vAssertShift'] = gl.h_assert_shift
         if job.opts.get('slowpath'):
             ses.use_slowpath()
         if job.opts.get('glue'):
